@@ -29,7 +29,7 @@ META = {
         "coroutine guards inside boolean expressions are W13 (owned by C08)",
     ],
     "must_observe": ["twin_pairs", "twin_steps_compared", "suspensions", "async_guard_completions", "events_executed"],
-    "shard_timeout": {"quick": 300, "thorough": 3400},
+    "shard_timeout": {"quick": 900, "thorough": 3400},
 }
 
 PROFILE = {"n_states": (2, 5), "n_events": (1, 3), "extra_transitions": (1, 5), "p_multi_event": 0.25,
